@@ -131,6 +131,47 @@ def env_step_oracle(rep, scenario, state, act, fake_rand, draws):
     return {"clause_failures": bad}
 
 
+def env_action_mask_oracle(rep, scenario, state):
+    """native evaluation of the C11 action-mask clauses on the real NASimEnv: mask[k] == 1 exactly when the target
+    of flat action k is a discovered host of the CURRENT state (the discovered cell is read straight from the tensor
+    at the documented offset, not through the code's accessors); the call changes nothing"""
+    import numpy as np
+    from nasim.envs.environment import NASimEnv
+    import nasim.scenarios.utils as u
+    sc = rep["scenario"]
+    osn, srvn, procn = names(sc)
+    scenario.scenario_dict[u.EXPLOITS] = {
+        "e_a": {u.EXPLOIT_SERVICE: srvn[0], u.EXPLOIT_OS: None, u.EXPLOIT_PROB: 1.0, u.EXPLOIT_COST: 1, u.EXPLOIT_ACCESS: 1},
+        "e_b": {u.EXPLOIT_SERVICE: srvn[-1], u.EXPLOIT_OS: osn[0], u.EXPLOIT_PROB: 0.5, u.EXPLOIT_COST: 2, u.EXPLOIT_ACCESS: 2}}
+    scenario.scenario_dict[u.PRIVESCS] = {
+        "p_a": {u.PRIVESC_PROCESS: procn[0], u.PRIVESC_OS: None, u.PRIVESC_PROB: 1.0, u.PRIVESC_COST: 1, u.PRIVESC_ACCESS: 2}}
+    env = NASimEnv(scenario, fully_obs=False, flat_actions=True, flat_obs=True)
+    from nasim.envs.host_vector import HostVector
+    HostVector.reset()
+    h0 = scenario.hosts[tuple(sc["addrs"][0])]
+    HostVector._initialize(tuple(sc["bounds"]), h0.services, h0.os, h0.processes)
+    env.current_state = state
+    env.steps = rep.get("steps0", 0)
+    before_T = state.tensor.copy()
+    before_obs, before_obs_T = env.last_obs, env.last_obs.tensor.copy()
+    n = env.action_space.n
+    targets = [tuple(env.action_space.get_action(k).target) for k in range(n)]
+    mask = env.get_action_mask()
+    bad = []
+    disc_col = sc["bounds"][0] + sc["bounds"][1] + 2
+    addrs = [tuple(a) for a in sc["addrs"]]
+    want = [int(before_T[addrs.index(t)][disc_col] != 0) for t in targets]
+    m = np.asarray(mask)
+    if m.ndim != 1: bad.append("C11.mask-is-vector: mask is not one-dimensional")
+    elif m.shape[0] != n: bad.append(f"C11.mask-length: {m.shape[0]} entries for {n} flat actions")
+    elif [int(x) for x in m] != want: bad.append(f"C11.mask-entries: mask {[int(x) for x in m]} but discovered-target flags {want}")
+    if not np.array_equal(state.tensor, before_T) or env.current_state is not state:
+        bad.append("C11.mask-pure: get_action_mask modified the current state")
+    if env.steps != rep.get("steps0", 0) or env.last_obs is not before_obs or not np.array_equal(env.last_obs.tensor, before_obs_T):
+        bad.append("C11.mask-pure: get_action_mask modified the environment")
+    return {"clause_failures": bad, "n_actions": int(n)}
+
+
 def result_dict(res):
     out = {k: bool(getattr(res, k)) for k in ("success", "connection_error", "permission_error", "undefined_error")}
     out["value"] = float(res.value)
@@ -200,7 +241,17 @@ def run(rep):
                                    undefined_error=r["undefined_error"], access=r.get("access"))
                 obs = state.get_observation(act, res, rep["fully_obs"])
                 actual["obs_tensor"] = obs.tensor.tolist()
+                actual["input_tensor_after"] = state.tensor.tolist()
+                actual["aliased"] = bool(np.shares_memory(obs.tensor, state.tensor))
                 actual["obs_dtype"] = str(obs.tensor.dtype)
+            elif h == "state_get_initial_observation":
+                obs = state.get_initial_observation(rep["fully_obs"])
+                actual["obs_tensor"] = obs.tensor.tolist()
+                actual["input_tensor_after"] = state.tensor.tolist()
+                actual["aliased"] = bool(np.shares_memory(obs.tensor, state.tensor))
+                actual["obs_dtype"] = str(obs.tensor.dtype)
+            elif h == "env_action_mask":
+                actual.update(env_action_mask_oracle(rep, scenario, state))
             elif h == "hv_observe":
                 from nasim.envs.host_vector import HostVector
                 vec = np.array(rep["vector"], dtype=np.float32)
@@ -220,7 +271,7 @@ def run(rep):
     actual["draws_used"] = calls["n"]
     pred = rep.get("predicted", {})
     mism = []
-    if h == "env_step":
+    if h in ("env_step", "env_action_mask"):
         # clause-level native oracle: reproduced iff some environment-level clause fails on the real code
         fails = actual.get("clause_failures", [])
         if actual.get("exception"):
